@@ -275,6 +275,9 @@ def bomb_messages():
         b'no colon header line\r\n\r\nb\r\n',
         nested_mime(500), nested_mime(30), nested_rfc822(300),
         nested_rfc822(20),
+        # deep enough to exhaust the stack while a response is written,
+        # not yet while the message is parsed
+        nested_mime(250), nested_mime(180), nested_rfc822(150),
         b'Content-Type: multipart/mixed\r\n\r\nno boundary param\r\n',
         b'Content-Type: multipart/mixed; boundary=""\r\n\r\n--\r\nx\r\n----\r\n',
         b'Content-Type: text/plain; charset="\xe9"; name*=utf-8\'\'%E9\r\n\r\nb',
